@@ -45,8 +45,10 @@ ENF_CONFIGS = {
 
 STORE_CONFIGS = {
     "quick": dict(NC=3, Groups="{1,2,3}", MaxShort=0, Long=100, NR=2, MaxT=1),
-    "thorough": dict(NC=5, Groups="{1,2,3}", MaxShort=0, Long=100, NR=2, MaxT=0),
+    "thorough": dict(NC=4, Groups="{1,2,3}", MaxShort=0, Long=100, NR=2, MaxT=1),
 }
+# all five classes (both networks, two addresses of one network), one reason, no clock
+WIDE_CONFIG = dict(NC=5, Groups="{1,2,3}", MaxShort=0, Long=100, NR=1, MaxT=0)
 # real sleeps: thorough tier only, kept small
 TIMED_CONFIG = dict(NC=2, Groups="{1,3}", MaxShort=2, Long=100, NR=1, MaxT=3)
 
@@ -259,7 +261,8 @@ def run(prop_id, tier, seed, replay=None):
             part = _Part(which)
             part.tlc = family._NoTLC()
             part.paths = [0]
-            env = {"VERIF_SEED": str(seed), "VERIF_SOON": "1" if which == "store" else "0"}
+            env = {"VERIF_SEED": str(seed), "VERIF_SOON": "0" if which == "store-timed" else "1",
+                   "VERIF_KEEP_SWEEPS": "1"}
             if which.startswith("store"):
                 binary = family.build_overlay_test(PKG_STORE, [DRIVER_STORE], os.path.join(sc, "banman.test"))
                 test, props_mod, names = "TestVerifBanStoreReplay", "BanStoreProps", STORE_PROPS
@@ -279,11 +282,13 @@ def run(prop_id, tier, seed, replay=None):
             # once a part has produced a new violation the verdict is settled; the remaining
             # parts are skipped (evidence says which ran)
             plan = [lambda: _store_part("store", STORE_CONFIGS[tier], tier, seed, rng, sc, store_bin,
-                                        walks=3000 if thorough else 0, depth=40,
+                                        walks=2000 if thorough else 0, depth=40,
                                         env={"VERIF_SOON": "1" if thorough else "0"}),
                     lambda: _enf_part("enforce", ENF_CONFIGS[tier], tier, seed, rng, sc, enf_bin,
                                       walks=2000 if thorough else 0, depth=30)]
             if thorough:
+                plan.append(lambda: _store_part("store-wide", WIDE_CONFIG, tier, seed, rng, sc, store_bin,
+                                                env={"VERIF_SOON": "1"}))
                 plan.append(lambda: _store_part("store-timed", TIMED_CONFIG, tier, seed, rng, sc, store_bin,
                                                 max_len=24, env={"VERIF_PAR": "48", "VERIF_SOON": "0"}))
             for step in plan:
